@@ -36,15 +36,24 @@ bool ops_codec(Ctx& c, const json& s, int idx, bool& handled) {
 	// ---- C04: long inputs, decoded by the specification's state machine (spec/LzhMachine.tla); output compared by length + checksum ----
 	if (op == "lzh_long") { const std::string kind = s["kind"]; std::size_t len = s["len"]; std::vector<unsigned char> in(len);
 		for (std::size_t i = 1; i <= len; ++i) in[i - 1] = (unsigned char)(kind == "zero" ? 0 : kind == "ff" ? 255 : kind == "aa" ? 170 : kind == "lcg" ? ((i * 1103 + (i / 7) * 12345 + 7) / 3) % 256 : (i * 37) % 256);
-		const unsigned long long wantLen = s["outLen"]; const bool wantErr = s["err"]; unsigned long a = 1, b = 0; unsigned long long n = 0; bool err = false; alarm(300);
-		Archive::HuffLZ z(Archive::BitStreamReader(in.data(), in.size())); std::vector<char> buf(5000); std::mt19937_64 rng(Proto::g_seed + len);
-		auto fold = [&](const char* p, std::size_t c) { for (std::size_t i = 0; i < c; ++i) { a = (a + (unsigned char)p[i]) % 65521; b = (b + a) % 65521; } n += c; };
-		try { for (;;) { std::size_t c = 0; if (rng() % 3 == 0) { const char* p = z.GetInternalBuffer(&c); fold(p, c); if (c == 0) break; } else { std::size_t want = 1 + rng() % 4999; c = z.GetData(buf.data(), want); fold(buf.data(), c); if (c < want) break; } if (n > wantLen + 100000) break; } }
-		catch (const std::exception&) { err = true; }
-		auto note = [&] { return where(kind + "[" + std::to_string(len) + "] delivered " + std::to_string(n) + " bytes, want " + std::to_string(wantLen) + (wantErr ? " then an error" : "")); };
-		if (err != wantErr) { Proto::mismatch(site, err ? "refused-should-accept" : "accepted-should-refuse", note()); return false; }
-		if (!err && (n != wantLen || a != s["a"].get<unsigned long>() || b != s["b"].get<unsigned long>())) { Proto::mismatch(site, "bytes", note()); return false; }
-		if (err && n > wantLen) { Proto::mismatch(site, "bytes-beyond-capacity", note()); return false; }      // what was delivered before the error is a prefix of the reference output
+		const unsigned long long wantLen = s["outLen"]; const bool wantErr = s["err"]; alarm(600);
+		// drain schedules: a seeded mixture of both interfaces, the internal-buffer interface alone, and fixed GetData sizes; the small sizes keep
+		// the decoder's 4 KiB queue as full as its fill threshold allows, which is where a wrong threshold lets a long match overrun unread bytes
+		struct Mode { const char* name; long size; };
+		std::vector<Mode> modes{{"mixed", -1}, {"ibuf", 0}, {"data1", 1}, {"data7", 7}, {"data61", 61}, {"data62", 62}, {"data4033", 4033}, {"data4034", 4034}, {"data4095", 4095}, {"data4096", 4096}, {"data4097", 4097}, {"data20000", 20000}};
+		if (wantErr || wantLen > 200000) modes.resize(3);
+		for (const Mode& md : modes) { const std::string msite = site + "/" + md.name; Proto::sanitize(Proto::g_site, sizeof Proto::g_site, msite);
+			unsigned long a = 1, b = 0; unsigned long long n = 0; bool err = false;
+			Archive::HuffLZ z(Archive::BitStreamReader(in.data(), in.size())); std::vector<char> buf(20000); std::mt19937_64 rng(Proto::g_seed + len);
+			auto fold = [&](const char* p, std::size_t c) { for (std::size_t i = 0; i < c; ++i) { a = (a + (unsigned char)p[i]) % 65521; b = (b + a) % 65521; } n += c; };
+			try { for (;;) { std::size_t c = 0; bool ibuf = md.size == 0 || (md.size < 0 && rng() % 3 == 0);
+					if (ibuf) { const char* p = z.GetInternalBuffer(&c); fold(p, c); if (c == 0) break; } else { std::size_t want = md.size > 0 ? (std::size_t)md.size : 1 + rng() % 4999; c = z.GetData(buf.data(), want); fold(buf.data(), c); if (c < want) break; }
+					if (n > wantLen + 100000) break; } }
+			catch (const std::exception&) { err = true; }
+			auto note = [&] { return where(kind + "[" + std::to_string(len) + "] drained by " + md.name + ": delivered " + std::to_string(n) + " bytes, want " + std::to_string(wantLen) + (wantErr ? " then an error" : "")); };
+			if (err != wantErr) { Proto::mismatch(msite, err ? "refused-should-accept" : "accepted-should-refuse", note()); return false; }
+			if (!err && (n != wantLen || a != s["a"].get<unsigned long>() || b != s["b"].get<unsigned long>())) { Proto::mismatch(msite, "bytes", note()); return false; }
+			if (err && n > wantLen) { Proto::mismatch(msite, "bytes-beyond-capacity", note()); return false; } }      // what was delivered before the error is a prefix of the reference output
 		return true; }
 	// ---- C04: a run of `count` equal literals, encoded with the real tree, across the capacity of the tree's counters ---------------
 	if (op == "lzh_literal_run") { const unsigned sym = s["sym"]; const std::size_t count = s["count"]; alarm(120); std::size_t padCodes = 0;
